@@ -30,12 +30,15 @@ def scenarios(quick):
         conf=[(T.balance2(maxseq=3), 'SpecPrompt', 10 if quick else 120, 250),
               (slow1, 'SpecPrompt', 8 if quick else 100, 300),
               (T.balance2_watch(maxseq=3), 'SpecPrompt', 6 if quick else 80, 250),
-              (T.balance2_multi(maxseq=3), 'Spec', 8 if quick else 100, 300)],
+              (T.balance2_multi(maxseq=3), 'Spec', 8 if quick else 100, 300),
+              (T.balance2_relay(maxseq=4), 'SpecPrompt', 6 if quick else 80, 300)],
         rand=[(T.balance2(maxseq=6), 8 if quick else 150, 1200, 0.03),
               (slow1b, 8 if quick else 150, 1500, 0.03),
               (T.balance3(maxseq=6), 8 if quick else 150, 1800, 0.03),
               (T.balance2_watch(maxseq=5), 6 if quick else 100, 1200, 0.05),
-              (T.balance2_multi(maxseq=6), 12 if quick else 200, 1500, 0.08)],
+              (T.balance2_multi(maxseq=6), 12 if quick else 200, 1500, 0.08),
+              # the rejoin is a relay that does not forward every frame (recv() alternates between a state and None)
+              (T.balance2_relay(maxseq=8), 12 if quick else 200, 1500, 0.03)],
     )
 
 
